@@ -206,14 +206,21 @@ def run(chk, binary):
             mk, n = None, 1
             k = op + ("a" if obj[1] else "i") + ("W" if obj[0] else "w") + ("Z<esc>" if op == "c" else "")
             cls = f"op {op} + {'a' if obj[1] else 'i'}{'W' if obj[0] else 'w'}"
+        vm = None
+        if obj is None and rng_o.random() < 0.15:
+            # a line motion: j k G gg, with or without a count
+            vm = (rng_o.choice(["j", "k", "G", "gg"]), rng_o.choice([None, None, 1, 2, 3, 4]))
+            mk, n = None, 1
+            k = (str(vm[1]) if vm[1] else "") + op + vm[0] + ("Z<esc>" if op == "c" else "")
+            cls = f"op {op} + {'N' if vm[1] else ''}{vm[0]}"
         put = None
         keys_ = [k]
-        if op != "c" and rng_o.random() < 0.25:
+        if vm is None and op != "c" and rng_o.random() < 0.25:
             # followed by a put of what the operator left in the register
             put = (rng_o.random() < 0.5, rng_o.choice([1, 1, 2, 3]))
             keys_.append((str(put[1]) if put[1] > 1 else "") + ("p" if put[0] else "P"))
             cls += " then " + ("N" if put[1] > 1 else "") + ("p" if put[0] else "P")
-        cases.append({"text": flat + "\n", "cursor": rng_o.choice(cursors(flat)), "keys": keys_, "cls": cls, "family": "OP", "classes": [cls], "opcase": (op, mk, n, flat), "put": put, "obj": obj})
+        cases.append({"text": flat + "\n", "cursor": rng_o.choice(cursors(flat)), "keys": keys_, "cls": cls, "family": "OP", "classes": [cls], "opcase": (op, mk, n, flat), "put": put, "obj": obj, "vm": vm})
     vim = VR.run_vim(cases)
     ans = server_map(binary, [{"op": "keys", "text": c["text"], "cursor": c["cursor"], "keys": ["".join(c["keys"])], "last_only": True} for c in cases])
     # the operator model against Vim: no tolerance
@@ -223,7 +230,8 @@ def run(chk, binary):
         return (opn[cases[i]["opcase"][0]], "Z" if cases[i]["opcase"][0] == "c" else "", txt(cases[i]["opcase"][3]),
                 (C("Some", MODEL_MOTIONS[cases[i]["opcase"][1]]) if cases[i]["opcase"][1] else None), Nat(cases[i]["opcase"][2]), Nat(cases[i]["cursor"]))
     objs = [i for i in opidx if cases[i].get("obj") and not cases[i].get("put")]
-    plain = [i for i in opidx if not cases[i].get("put") and not cases[i].get("obj")]
+    vms = [i for i in opidx if cases[i].get("vm")]
+    plain = [i for i in opidx if not cases[i].get("put") and not cases[i].get("obj") and not cases[i].get("vm")]
     withput = [i for i in opidx if cases[i].get("put") and not cases[i].get("obj")]
     skipped_objput = [i for i in opidx if cases[i].get("obj") and cases[i].get("put")]        # compared with Vim only
     res_obj = run_coq_eval("c02_obj", ["Base.Prelude", "Model.Motions", "Model.Ops", "Model.Obs"], "obj_obs",
@@ -231,7 +239,12 @@ def run(chk, binary):
     res_plain = run_coq_eval("c02_ops", ["Base.Prelude", "Model.Motions", "Model.Ops", "Model.Obs"], "op_obs", [opterm(i) for i in plain], shard=800)
     res_put = run_coq_eval("c02_opput", ["Base.Prelude", "Model.Motions", "Model.Ops", "Model.Obs"], "op_put_obs",
                            [(opterm(i), cases[i]["put"][0], Nat(cases[i]["put"][1])) for i in withput], shard=800)
+    vmn = {"j": 0, "k": 1, "G": 2, "gg": 3}
+    res_vm = run_coq_eval("c02_opv", ["Base.Prelude", "Model.Motions", "Model.Ops", "Model.Obs"], "opv_obs",
+                          [(opn[cases[i]["opcase"][0]], "Z" if cases[i]["opcase"][0] == "c" else "", txt(cases[i]["opcase"][3]), vmn[cases[i]["vm"][0]],
+                            (C("Some", Nat(cases[i]["vm"][1])) if cases[i]["vm"][1] else None), Nat(cases[i]["cursor"])) for i in vms], shard=800)
     by_idx = dict(zip(plain, res_plain))
+    by_idx.update(zip(vms, res_vm))
     by_idx.update(zip(withput, res_put))
     by_idx.update(zip(objs, res_obj))
     opidx = [i for i in opidx if i in by_idx]
